@@ -119,7 +119,11 @@ void check_legal_string (const char *s) {
  */
 char *strput (char *x, char *limit, const char *y) {
 #ifdef HAVE_STPNCPY
-  return stpncpy(x, y, limit - x);
+  char *p = stpncpy (x, y, limit - x);
+
+  if (p == limit)	/* truncated: stpncpy() leaves no terminator, the loop below does */
+    *--p = 0;
+  return p;
 #else
   while ((*x++ = *y++))
     {
